@@ -57,7 +57,42 @@ def esc(s, attr=False):
     return s
 
 
-def rdoc(rnd, depth=0, inside_protected=False):
+ENTITIES = {"site": "Harvard \t Forest", "nb": "a&#160;b", "sp": "  ", "w": "word"}
+
+
+def prolog(rnd):
+    """Document-level furniture of a well-formed document: XML declaration, an internal DTD subset declaring general
+    entities (used in text and attribute values below), comments and processing instructions around the root."""
+    s = ""
+    if rnd.random() < 0.3:
+        s += '<?xml version="1.0" encoding="UTF-8"?>\n'
+    ents = {}
+    if rnd.random() < 0.35:
+        ents = {k: ENTITIES[k] for k in rnd.sample(sorted(ENTITIES), rnd.randint(1, 3))}
+        s += "<!DOCTYPE doc [" + "".join(f' <!ENTITY {k} "{v}">' for k, v in ents.items()) + " ]>\n"
+    if rnd.random() < 0.2:
+        s += "<!-- a comment -->\n"
+    if rnd.random() < 0.1:
+        s += "<?pi some data?>\n"
+    return s, ents
+
+
+def with_refs(text, rnd, ents):
+    """escaped text with, now and then, a reference to a declared entity or a character reference"""
+    out = esc(text)
+    if ents and rnd.random() < 0.5:
+        k = rnd.choice(sorted(ents))
+        pos = rnd.randint(0, len(text))
+        out = esc(text[:pos]) + f"&{k};" + esc(text[pos:])
+    if rnd.random() < 0.1:
+        out += rnd.choice(["&#160;", "&#x20;", "&#9;", "&#xA0;x"])
+    return out
+
+
+def rdoc(rnd, depth=0, inside_protected=False, ents=None):
+    if depth == 0 and ents is None:
+        pro, ents = prolog(rnd)
+        return pro + rdoc(rnd, 0, inside_protected, ents) + ("\n<!-- trailing -->" if rnd.random() < 0.1 else "")
     name = rnd.choice(PROTECTED if rnd.random() < 0.3 else PLAIN)
     attrs = []
     if depth == 0:
@@ -69,13 +104,21 @@ def rdoc(rnd, depth=0, inside_protected=False):
             continue
         used.add(an)
         attrs.append((an, rtext(rnd)))
-    s = "<" + name + "".join(f' {k}="{esc(v, True)}"' for k, v in attrs) + ">"
+    def aval(v):
+        if ents and rnd.random() < 0.3:
+            return esc(v, True) + "&" + rnd.choice(sorted(ents)) + ";"
+        return esc(v, True)
+    s = "<" + name + "".join(f' {k}="{aval(v)}"' if not k.startswith("xmlns") else f' {k}="{esc(v, True)}"' for k, v in attrs) + ">"
     nk = rnd.choice([0, 0, 1, 2, 3]) if depth < 4 else 0
     for i in range(nk + 1):
         if rnd.random() < 0.7:
-            s += esc(rtext(rnd))
+            t = rtext(rnd)
+            if rnd.random() < 0.1 and "]]>" not in t:
+                s += "<![CDATA[" + t + "]]>"
+            else:
+                s += with_refs(t, rnd, ents)
         if i < nk:
-            s += rdoc(rnd, depth + 1)
+            s += rdoc(rnd, depth + 1, ents=ents)
     return s + "</" + name + ">"
 
 
